@@ -2,6 +2,7 @@ package main
 
 import (
 	"fmt"
+	"sort"
 	"strings"
 
 	"verifharness/internal/rng"
@@ -13,6 +14,9 @@ func genSuffix(run func(string) string, r *rng.R, maxOps int) {
 	run("reset")
 	run("sreset")
 	members := r.Range(1, 3)
+	fresh := 10               // members that never led so far (their allocator managers have seen nothing)
+	assigned := map[int]int{} // dc that has a suffix and still has its server -> server id
+	gone := []int{}           // dcs that have a suffix and no server any more
 	leader := 1
 	run("slead 1")
 	nextDC, nextSrv := 1, 1
@@ -21,7 +25,36 @@ func genSuffix(run func(string) string, r *rng.R, maxOps int) {
 	parked := map[int]int{} // member -> dc it is parked on
 	n := r.Range(4, maxOps/2)
 	for i := 0; i < n; i++ {
-		switch r.Pick(30, 30, 12, 10, 10, 8) {
+		switch r.Pick(30, 30, 12, 10, 10, 8, 14, 5, 5) {
+		case 6: // every server of a dc that has its suffix leaves (the suffix stays persisted)
+			if unassigned == 0 && len(parked) == 0 && len(assigned) > 0 {
+				var dcs []int
+				for dc := range assigned {
+					dcs = append(dcs, dc)
+				}
+				sort.Ints(dcs)
+				dc := dcs[r.Intn(len(dcs))]
+				run(fmt.Sprintf("dcleave %d", assigned[dc]))
+				delete(assigned, dc)
+				gone = append(gone, dc)
+				if r.Bool(2, 3) {
+					run(fmt.Sprintf("checker %d 0", leader))
+				}
+			}
+		case 7: // a dc that left comes back with a new server: it must find its old suffix
+			if unassigned == 0 && len(parked) == 0 && len(gone) > 0 {
+				dc := gone[0]
+				gone = gone[1:]
+				run(fmt.Sprintf("dcjoin %d %d", nextSrv, dc))
+				assigned[dc] = nextSrv
+				nextSrv++
+			}
+		case 8: // the leadership moves to a member that has not seen anything yet (a restarted / new PD)
+			if len(parked) == 0 && fresh < 16 {
+				run(fmt.Sprintf("slead %d", fresh))
+				leader = fresh
+				fresh++
+			}
 		case 0: // a new dc joins (only when none is waiting)
 			if unassigned == 0 && nextDC <= 12 {
 				run(fmt.Sprintf("dcjoin %d %d", nextSrv, nextDC))
@@ -32,6 +65,9 @@ func genSuffix(run func(string) string, r *rng.R, maxOps int) {
 		case 1: // the leader runs the checker
 			if _, p := parked[leader]; !p {
 				run(fmt.Sprintf("checker %d %d", leader, unassigned))
+				if unassigned != 0 {
+					assigned[unassigned] = unSrv
+				}
 				unassigned = 0
 			}
 		case 2: // the leader's checker parks before its create transaction
